@@ -110,6 +110,18 @@ def _extract(n):
             "dtrs": [_extract(d) for d in n.daughters]}
 
 
+def _want(t):
+    """what a tree must look like, from the generator's description (not through the constructors)"""
+    if "form" in t:
+        return {"form": t["form"], "tokens": [list(x) for x in t["tokens"]]}
+    root = t["id"] is None
+    dflt = None if root else -1
+    return {"id": t["id"], "entity": t["entity"],
+            "score": None if root else _g(-1.0 if t["score"] is None else float(t["score"])),
+            "start": dflt if t["start"] is None else t["start"], "end": dflt if t["end"] is None else t["end"],
+            "head": bool(t["head"]), "type": t["type"], "dtrs": [_want(d) for d in t["dtrs"]]}
+
+
 def _key(n):
     from delphin import derivation as D
     if isinstance(n, D.UDFTerminal):
@@ -146,7 +158,7 @@ def oracle(c):
                 again = p.to_udx(indent=indent) if udx else p.to_udf(indent=indent)
                 if again != text:
                     return "re-serialising the parsed %s text differs (indent=%r)" % ("UDX" if udx else "UDF", indent)
-                want = _extract(d)
+                want = _want(c["t"])
                 got = _extract(p)
                 if not udx:
                     _strip(want)
@@ -154,7 +166,7 @@ def oracle(c):
                     return "the parsed %s tree differs from the original" % ("UDX" if udx else "UDF")
     if c["k"] == "dict":
         e = D.from_dict(d.to_dict())
-        if e != d or e.to_dict() != d.to_dict() or _extract(e) != _extract(d):
+        if e != d or e.to_dict() != d.to_dict() or _extract(e) != _want(c["t"]):
             return "from_dict(to_dict(d)) differs from d"
     if c["k"] == "nav":
         nodes = []
